@@ -52,11 +52,15 @@ pub fn well_formed(ctx: &Ctx, rng: &mut Rng, max_size: usize) -> WellFormed {
         }
         WellFormed { text: s.text.clone(), name: s.name.clone(), prog: None, layout: None, seed_width: Some(s.width) }
     } else {
-        let deco = match rng.below(4) {
+        let mut deco = match rng.below(4) {
             0 => DecoOpts::none(),
             1 => DecoOpts::heavy(),
             _ => DecoOpts::light(),
         };
+        // conditional elements inside comma-separated lists (arguments, sets, enums, uses)
+        if rng.chance(1, 4) {
+            deco.inline_cond = *rng.pick(&[60u32, 150, 400]);
+        }
         gram_case(rng, max_size, &deco)
     }
 }
